@@ -30,7 +30,7 @@ def want_vis(inst, param_vis):
 
 def struct_name(inst, f):
     p = inst.feats.get(f, {})
-    return p.get('struct_name') or ('E' + ('Iter' if f == 'iter' else 'Names'))
+    return p.get('struct_name') or (inst.enum_name + ('Iter' if f == 'iter' else 'Names'))
 
 def check_instance(inst, F, ctx, extra):
     cr = inst.crate
